@@ -21,6 +21,8 @@ func main() {
 		cmdCheck(os.Args[2:])
 	case "selfcheck":
 		cmdSelfcheck()
+	case "det":
+		cmdDet(os.Args[2:])
 	default:
 		fmt.Fprintln(os.Stderr, "unknown subcommand")
 		os.Exit(2)
@@ -142,4 +144,21 @@ func cmdSelfcheck() {
 		os.Exit(1)
 	}
 	fmt.Println("govc selfcheck ok")
+}
+
+
+// det: developer command — list determinism obligations of matching functions.
+func cmdDet(args []string) {
+	fs := flag.NewFlagSet("det", flag.ExitOnError)
+	pkgs := fs.String("pkgs", "./...", "packages")
+	pats := fs.String("funcs", "", "comma-separated function patterns (pkg.* allowed)")
+	fs.Parse(args)
+	eng, err := LoadEngine("/repo", strings.Split(*pkgs, ","), "/verif/specs")
+	if err != nil {
+		fmt.Fprintln(os.Stderr, err)
+		os.Exit(2)
+	}
+	for _, o := range eng.detAnalysis(strings.Split(*pats, ",")) {
+		fmt.Printf("%-7s %s  %s\n      %s\n", o.Status, o.Name, o.Pos, o.Detail)
+	}
 }
